@@ -4,4 +4,4 @@ From Coq Require Import ExtrOcamlBasic.
 From Qv Require Import Common.Bytes Gen.GenAddr Model.InetPton Model.Addr Spec.AddrSpec.
 Extraction "m.ml" domainvalid parselocalpart parseaddr checkaddr addrspec_valid addrsyntax xtextlen addrparse_syntax
   pton4_ref pton6_ref CHAR_SIGNED PA_BUF4 PA_BUF6
-  spec_dv spec_lp spec_pa spec_as spec_ap spec_xt.
+  spec_dv spec_lp spec_pa spec_as spec_ap spec_xt local_class lweak_b local_rfc_b.
